@@ -305,11 +305,13 @@ type TsDemux struct {
 	PmtPID           uint16
 	Pat              Psi
 	Pmt              Psi
+	FirstPmt         Psi
 	PatCount         int
 	PmtCount         int
 	StreamTypes      map[uint16]uint8
 	Out              []Pes
 	Errs             []string
+	CCErrs           []string // continuity-counter discontinuities (kept apart: legal where frames are dropped on purpose)
 	// CheckCC: report continuity errors (reset by ResetCC at segment joins where needed)
 	lastCC map[uint16]int
 	cur    map[uint16]*Pes
@@ -377,6 +379,9 @@ func (d *TsDemux) feedPacket(b []byte) {
 				d.errf("table id %d on PMT pid", s.TableID)
 				return
 			}
+			if !d.PmtSeen {
+				d.FirstPmt = s
+			}
 			d.PmtSeen, d.Pmt = true, s
 			d.PmtCount++
 			for _, st := range s.Streams {
@@ -391,7 +396,9 @@ func (d *TsDemux) feedPacket(b []byte) {
 	// elementary stream
 	if last, ok := d.lastCC[p.PID]; ok && p.AFC&1 != 0 {
 		if int(p.CC) != (last+1)&15 {
-			d.errf("pid %#x continuity %d after %d", p.PID, p.CC, last)
+			if len(d.CCErrs) < 50 {
+				d.CCErrs = append(d.CCErrs, fmt.Sprintf("pkt %d: pid %#x continuity %d after %d", d.idx, p.PID, p.CC, last))
+			}
 		}
 	}
 	if p.AFC&1 != 0 {
